@@ -300,6 +300,20 @@ class FloatEnumParam(Parameter):
             return self
         return self.valuedict[instance.parameters[self.idx_name].value]
 
+    def __set__(self, instance, value):
+        """setter: the float value follows the index
+
+        an assignment selects the index of the closest allowed value
+        (as a write does), the update of the float is triggered by the index
+        """
+        vdict = self.valuedict
+        try:
+            idx = min(vdict, key=lambda i: abs(vdict[i] - value))
+        except Exception:
+            super().__set__(instance, value)  # not a number: handled as for any parameter
+            return
+        setattr(instance, self.idx_name, idx)
+
     def trigger_setter(self, modobj, _):
         # trigger update of float parameter on change of enum parameter
         modobj.announceUpdate(self.name, getattr(modobj, self.name))
